@@ -547,6 +547,8 @@ def d(ck: Check) -> None:
             # conditions of the innermost iteration that contains the growth (simple paths cannot cross the loops that
             # must run before it)
             inner_ = [l_ for l_ in fm.cfg.enclosing_loops(n) if l_ is not loop]
+            if any(isinstance(l_, ast.While) for l_ in inner_):
+                continue        # growth inside a saturation loop: that loop goes round again itself (its witness is C13's)
             st_ = _tbranch(fm, inner_[0]) if inner_ else tb
             try:
                 r1 = paths_imply(fm, st_, n, goal, tr, stop=clears)
